@@ -1,8 +1,11 @@
 SPECIFICATION Spec
 CONSTANTS
   Keys = {"k1", "k2"}
-  MaxOps = 5
+  MaxOps = 4
   MaxRedirects = 2
   FixOnce = TRUE
+  MaxVals = 2
+  HookDepth = 2
+  OwnBytes = TRUE
 INVARIANTS StoredForm ReadBack OnlyWhenEnabled
 CHECK_DEADLOCK FALSE
